@@ -16,6 +16,51 @@ func init() {
 	observers["C11.align"] = obsC11Align
 	observers["C11.seq"] = obsC11Seq
 	observers["C11.cal"] = obsC11Cal
+	observers["C11.clip"] = obsC11Clip
+	gens["C11clip"] = genC11Clip
+}
+
+// input "<s1> <e1> <s2> <e2> <iv> <last>": the requested period (--from/--to; "-" start = the zero time, no --from)
+// and the journal's period, as cmd/flags Multiperiod.Partition combines them: Clip, then NewPartition.
+// observed: "<cs>..<ce> | <periods>" (or "... | PANIC")
+func obsC11Clip(in string) (res string) {
+	f := strings.Fields(in)
+	z := func(s string) time.Time {
+		if s == "-" {
+			return time.Time{}
+		}
+		return pd(s)
+	}
+	c := date.Period{Start: z(f[0]), End: z(f[1])}.Clip(date.Period{Start: z(f[2]), End: z(f[3])})
+	res = fd(c.Start) + ".." + fd(c.End) + " | "
+	if c.Start.IsZero() {
+		return res + "NOSTART" // Multiperiod.Partition reports an error (fix c04a731)
+	}
+	return res + obsC11Part(fmt.Sprintf("%s %s %s %s", fd(c.Start), fd(c.End), f[4], f[5]))
+}
+
+// windows and journal periods in every relative position: nested, overlapping at either end, touching, disjoint
+// on either side (--to before the first transaction, --from after the last day), inverted requests (--from after --to)
+func genC11Clip(out *caseWriter, seed uint64, n int, args []string) error {
+	for i := 0; i < n; i++ {
+		r := newRng(seed, "C11clip", i)
+		js := date.Date(r.rangeInt(2015, 2024), time.Month(r.rangeInt(1, 12)), r.rangeInt(1, 28))
+		je := js.AddDate(0, 0, r.rangeInt(0, 500))
+		pts := []time.Time{js.AddDate(0, 0, -r.rangeInt(1, 400)), js.AddDate(0, 0, -1), js, js.AddDate(0, 0, 1),
+			js.AddDate(0, 0, r.rangeInt(0, 500)), je.AddDate(0, 0, -1), je, je.AddDate(0, 0, 1), je.AddDate(0, 0, r.rangeInt(1, 400))}
+		ws, we := pick(r, pts), pick(r, pts)
+		from := fd(ws)
+		if r.chance(25) {
+			from = "-"
+		}
+		iv := intervals[r.intn(len(intervals))]
+		last := 0
+		if r.chance(30) {
+			last = r.rangeInt(1, 6)
+		}
+		out.add(fmt.Sprintf("C11clip-%d-%d", seed, i), "C11.clip", fmt.Sprintf("%s %s %s %s %s %d", from, fd(we), fd(js), fd(je), iv, last))
+	}
+	return nil
 }
 
 var intervals = []date.Interval{date.Once, date.Daily, date.Weekly, date.Monthly, date.Quarterly, date.Yearly}
